@@ -97,6 +97,18 @@ def show(t, depth=0):
     return "%s(%s)" % (k, ", ".join(s(a, depth + 1) for a in t[1:]))
 
 
+def mk_field(v, f):
+    """field `f` of v: a struct literal's own component when v is one"""
+    v0 = v
+    while isinstance(v0, tuple) and v0 and v0[0] == "un" and v0[1] == "Deref":
+        v0 = v0[2]
+    if isinstance(v0, tuple) and v0 and v0[0] == "struct":
+        d = dict(v0[2])
+        if f in d:
+            return d[f]
+    return ("field", v, f)
+
+
 def mk_bin(op, l, r):
     if op == "Ne":                      # one spelling for (in)equality: a != b is !(a == b)
         return ("un", "Not", mk_bin("Eq", l, r))
@@ -244,7 +256,7 @@ class Exec:
                     subs = p.get("ps") or [q for _, q in p.get("fs", [])]
                     names = [str(i) for i in range(len(p.get("ps") or []))] or [a for a, _ in p.get("fs", [])]
                     for nm, q in zip(names, subs):
-                        if not rec(q, ("field", v, nm) if not nm.isdigit() else mk_proj(v, int(nm))):
+                        if not rec(q, mk_field(v, nm) if not nm.isdigit() else mk_proj(v, int(nm))):
                             return False
                     return True
                 if isinstance(v, tuple) and v and v[0] == "call" and v[1] != path and self._is_enum_variant(v[1]) and v[1].rsplit("::", 1)[0] == path.rsplit("::", 1)[0]:
@@ -344,6 +356,10 @@ class Exec:
             for (a, p2) in split_cond(t, pol):
                 if (a, not p2) in pc:
                     return None
+                if isinstance(a, tuple) and len(a) == 2 and a[0] == "lit" and str(a[1]) in ("true", "false"):
+                    if (str(a[1]) == "true") != p2:
+                        return None          # a literal condition decides itself
+                    continue
                 # two different variants of the same scrutinee cannot both hold
                 if p2 and isinstance(a, tuple) and a[0] == "is":
                     for (b, p3) in pc:
@@ -421,7 +437,7 @@ class Exec:
             for p in self.eval(n["b"], st):
                 if p.exit is None:
                     f = n["f"]
-                    p = p.fork(val=mk_proj(p.val, int(f)) if f.isdigit() else ("field", p.val, f))
+                    p = p.fork(val=mk_proj(p.val, int(f)) if f.isdigit() else mk_field(p.val, f))
                 out.append(p)
             return out
         if k == "index":
@@ -1062,6 +1078,40 @@ def lin(t):
     return rec(t)
 
 
+def poly(t):
+    """polynomial normal form of an integer-valued E6 term: {sorted tuple of atom reprs: coefficient} (products distributed; len(X) is one atom per sequence)"""
+    if isinstance(t, tuple) and t:
+        if t[0] == "lit":
+            v = str(t[1]).replace("_", "").replace("usize", "")
+            if v.isdigit():
+                return {(): int(v)} if int(v) else {}
+        if t[0] == "bin" and t[1] in ("Add", "Sub"):
+            a, b = poly(t[2]), poly(t[3])
+            out = dict(a)
+            for k, v in b.items():
+                out[k] = out.get(k, 0) + (v if t[1] == "Add" else -v)
+                if out[k] == 0:
+                    del out[k]
+            return out
+        if t[0] == "bin" and t[1] == "Mul":
+            a, b = poly(t[2]), poly(t[3])
+            out = {}
+            for k1, v1 in a.items():
+                for k2, v2 in b.items():
+                    k = tuple(sorted(k1 + k2))
+                    out[k] = out.get(k, 0) + v1 * v2
+                    if out[k] == 0:
+                        del out[k]
+            return out
+        if t[0] == "un" and t[1] == "Deref":
+            return poly(t[2])
+        if t[0] == "cast" and len(t) == 3 and t[2] in ("usize", "u64"):
+            return poly(t[1])
+        if t[0] == "call" and t[1].rsplit("::", 1)[-1] == "len" and len(t[2]) == 1:
+            return {(repr(("len", strip_upd(t[2][0]))),): 1}
+    return {(repr(t),): 1}
+
+
 def unself(t):
     """`self` seen from inside a loop that changes some of its fields is still the same object: loopin/loopout(self) -> p(self), `upd`s dropped"""
     if isinstance(t, tuple):
@@ -1080,6 +1130,12 @@ def seq_walk(src, lid, X):
     -> {"fwd": pred | None, "rev": pred | None, "pos": {"fwd": lin | None, "rev": lin | None}} where pred(term) says whether a term
     denotes the current element of a forward / reverse walk and pos is the linear form of its position in X;  None if unrelated."""
     el = ("elem", src, lid)
+    rv0 = is_call(src, "rev", 1)
+    en0 = is_call(rv0[0], "enumerate", 1) if rv0 else None
+    if en0 is not None and unself(en0[0]) == X:
+        # X.iter().enumerate().rev(): the pairs (position, element) of X, last first
+        out0 = {"fwd": None, "rev": (lambda t, item=("proj", el, 1): strip_upd(t) == strip_upd(item)), "pos": {"fwd": None, "rev": lin(("proj", el, 0))}}
+        return out0
     en = is_call(src, "enumerate", 1)
     base = en[0] if en else src
     item = ("proj", el, 1) if en else el
